@@ -413,6 +413,21 @@ pub fn range_case<S: PageSize>(r: &mut Rep, kind: &str, start: u64, end: u64) {
     r.bucket(if n == 0 { "range-empty" } else { anchor_name(last, size, physical) });
 }
 
+/// long ranges: len/size/is_empty against the exact count, without iterating
+pub fn range_meta<S: PageSize>(r: &mut Rep, kind: &str, start: u64, end: u64, n: u64) {
+    r.ev(true);
+    let case = format!("rangemeta {} {} {:#x} {:#x}", kind, S::DEBUG_STR, start, end);
+    let (len, sz, empty) = match kind {
+        "PageRange" => { let g = Page::<S>::range(Page::containing_address(va(start)), Page::containing_address(va(end))); (catch(|| g.len()), catch(|| g.size()), catch(|| g.is_empty())) }
+        "PageRangeInclusive" => { let g = Page::<S>::range_inclusive(Page::containing_address(va(start)), Page::containing_address(va(end))); (catch(|| g.len()), catch(|| g.size()), catch(|| g.is_empty())) }
+        "PhysFrameRange" => { let g = PhysFrame::<S>::range(PhysFrame::containing_address(pa(start)), PhysFrame::containing_address(pa(end))); (catch(|| g.len()), catch(|| g.size()), catch(|| g.is_empty())) }
+        _ => { let g = PhysFrame::<S>::range_inclusive(PhysFrame::containing_address(pa(start)), PhysFrame::containing_address(pa(end))); (catch(|| g.len()), catch(|| g.size()), catch(|| g.is_empty())) }
+    };
+    if len != Ok(n) || sz != Ok(n * S::SIZE) || empty != Ok(n == 0) {
+        r.viol(&format!("C07|{}<{}>|len/size/is_empty-of-a-long-range-wrong", kind, S::DEBUG_STR), &case, &format!("{:?} {:?} {:?} expected {} items", len, sz, empty, n));
+    }
+}
+
 pub fn range_2m_conv(r: &mut Rep, start: u64, end: u64) {
     let rg = Page::<Size2MiB>::range(
         Page::from_start_address(va(start)).unwrap(),
@@ -476,6 +491,53 @@ fn sweep_ranges<S: PageSize>(r: &mut Rep, a: &Args) {
                     range_2m_conv(r, s0, s0 + len * size);
                     if back >= 1 && len >= 1 && start >= lo {
                         range_2m_conv(r, start, end_incl + size);
+                    }
+                }
+            }
+        }
+    }
+    // all ordered pairs over a small page set per half (first/last three pages, three irregular middle pages):
+    // reversed (empty) ranges of any distance, and long ranges whose metadata (len/size/is_empty, 2 MiB conversion) is
+    // checked without iterating
+    for (lo, last) in halves {
+        let mid = (lo + (0x0000_2345_6789_a000u64 & 0x7fff_ffff_ffff)) & !(size - 1);
+        let pts = [lo, lo + size, lo + 2 * size, mid - size, mid, mid + 7 * size, last - 2 * size, last - size, last];
+        for &s0 in &pts {
+            for &e0 in &pts {
+                case_no += 1;
+                if case_no % a.nshards != a.shard {
+                    continue;
+                }
+                for kind in ["PageRange", "PageRangeInclusive"] {
+                    let n = if kind == "PageRange" { if s0 < e0 { (e0 - s0) / size } else { 0 } } else if s0 <= e0 { (e0 - s0) / size + 1 } else { 0 };
+                    if n <= maxlen {
+                        range_case::<S>(r, kind, s0, e0);
+                    } else {
+                        range_meta::<S>(r, kind, s0, e0, n);
+                    }
+                }
+                if size == Size2MiB::SIZE {
+                    range_2m_conv(r, s0, e0);
+                }
+            }
+        }
+    }
+    {
+        let plast = (1u64 << 52) - size;
+        let mid = 0x0003_4567_89ab_c000u64 & !(size - 1);
+        let pts = [0, size, 2 * size, mid - size, mid, mid + 7 * size, plast - 2 * size, plast - size, plast];
+        for &s0 in &pts {
+            for &e0 in &pts {
+                case_no += 1;
+                if case_no % a.nshards != a.shard {
+                    continue;
+                }
+                for kind in ["PhysFrameRange", "PhysFrameRangeInclusive"] {
+                    let n = if kind == "PhysFrameRange" { if s0 < e0 { (e0 - s0) / size } else { 0 } } else if s0 <= e0 { (e0 - s0) / size + 1 } else { 0 };
+                    if n <= maxlen {
+                        range_case::<S>(r, kind, s0, e0);
+                    } else {
+                        range_meta::<S>(r, kind, s0, e0, n);
                     }
                 }
             }
@@ -559,6 +621,12 @@ pub fn replay(case: &str) -> Rep {
             match sz { "4KiB" => range_case::<Size4KiB>(&mut r, kind, s, e), "2MiB" => range_case::<Size2MiB>(&mut r, kind, s, e), _ => range_case::<Size1GiB>(&mut r, kind, s, e) }
         }
         "conv2m" => range_2m_conv(&mut r, h(t[1]), h(t[2])),
+        "rangemeta" => {
+            let (kind, sz, s, e) = (t[1], t[2], h(t[3]), h(t[4]));
+            let size: u64 = match sz { "4KiB" => 0x1000, "2MiB" => 0x20_0000, _ => 0x4000_0000 };
+            let n = if kind.ends_with("Inclusive") { if s <= e { (e - s) / size + 1 } else { 0 } } else if s < e { (e - s) / size } else { 0 };
+            match sz { "4KiB" => range_meta::<Size4KiB>(&mut r, kind, s, e, n), "2MiB" => range_meta::<Size2MiB>(&mut r, kind, s, e, n), _ => range_meta::<Size1GiB>(&mut r, kind, s, e, n) }
+        }
         _ => panic!("bad case"),
     }
     r
